@@ -12,10 +12,11 @@ ENCODED = ['Fxp.__init__', 'Fxp._init_size', 'Fxp.resize', 'Fxp.set_val', 'Fxp._
 ASSUMPTIONS = [
     'the transformed value t = (v-b)/s is the symbolic input, a dyadic on the grid 2^-(n_frac+G), G=8, over three times the representable range; '
     'the stored number is v := s*t + b, computed exactly (dyadic scale and bias), so that every intermediate of the real code is an exact double',
-    'scale in {2, 1/2, 3/4, 5, -1/2, 4 (int), 1 with a bias}, bias in {0, 1, -2.5, 10000, 3 (int)}; formats with n_word <= 16',
+    'scale in {2, 1/2, 3/4, 5, -1/2, 4 (int), 1 with a bias}, and 49/8, 75/8 on formats of at most 8 bits, bias in {0, 1, -2.5, 10000, 3 (int)}; formats with n_word <= 16',
     'size inference part: t = k/2^f0 with f0 <= 2 and |k| < 2^7 (the fraction search forks once per fractional bit pattern)',
 ]
 SCALES = [2.0, 0.5, 0.75, 5.0, -0.5, 4, 1]
+ODD_SCALES = [6.125, 9.375]       # 49/8 and 75/8: their reciprocals are not doubles that survive a multiplication (small formats only: cost)
 BIASES = [0, 1.0, -2.5, 10000.0, 3]
 G = 8
 
@@ -35,6 +36,10 @@ def configs(tier, seed):
             for (sc, bi) in C.pick(combos, 4 if tier == 'quick' else 12, rng):
                 out.append(dict(part='store', signed=s, n_word=n, n_frac=f, rounding=r, overflow=o, scale=sc, bias=bi,
                                 entry=rng.choice(('ctor', 'set_val', 'call'))))
+    for (s, n, f) in ([(True, 8, 2), (False, 6, 3), (True, 5, 0)] if tier == 'quick' else [q for q in fm if q[1] <= 8]):
+        for (r, o) in C.pick(C.modes(), 3 if tier == 'quick' else 5, rng):
+            out.append(dict(part='store', signed=s, n_word=n, n_frac=f, rounding=r, overflow=o, scale=rng.choice(ODD_SCALES), bias=rng.choice((0, 1.0, -2.5)),
+                            entry=rng.choice(('ctor', 'set_val', 'call'))))
     # integer carriers (Python int): the transformed value (v-b)/s has fractional bits the integer input does not show
     P2 = [2.0, 0.5, -0.5, 4, 1]
     for (s, n, f) in C.pick([q for q in fm if q[2] >= 1], 16 if tier == 'quick' else 60, rng):
